@@ -38,7 +38,10 @@ EXTENDS Integers, Sequences, FiniteSets, TLC
 CONSTANTS Conns,          \* connection names in the order they may connect, e.g. <<"O", "N", "M">>
           FiltersS,       \* filters a connection may subscribe
           TeardownById,   \* see above
-          MaxAdmin        \* bound on admin deletes
+          MaxAdmin,       \* bound on admin deletes
+          StaleGuard      \* FALSE: the code - deleteSession acts on every delete notification; TRUE: a notification is ignored
+                          \* when the store holds a session of the id again (lead generation: must be refuted - the
+                          \* still connected client's own SUBSCRIBE re-stores the session before the notification arrives)
 
 ConnSet == {Conns[i] : i \in 1..Len(Conns)}
 Idx(c) == CHOOSE i \in 1..Len(Conns) : Conns[i] = c
@@ -139,6 +142,18 @@ Subscribe(c, f) ==
     /\ ev' = [a |-> "sub", c |-> c, f |-> f]
     /\ UNCHANGED <<pc, cl, cur, closed, smap, nsid, csess, watchQ, closeReq, admins>>
 
+(* the owner of a session that has just been deleted through the admin endpoint is still connected    *)
+(* until the store's delete notification has been handled: a SUBSCRIBE it sends meanwhile is processed   *)
+(* as usual - and Session.store writes the session into the store again                                   *)
+KickedSubscribe(c, f) ==
+    /\ pc[c] = "ready" /\ kst[c] = "kicked" /\ cur = c /\ ~closed[c]
+    /\ ksubs' = ksubs \cup {f} /\ UNCHANGED <<kcur, kex, kclean, kst, kdel>>     \* (should the deleted session be resumed after all, it holds f)
+    /\ trie' = trie \cup {f}
+    /\ sess' = [sess EXCEPT ![csess[c]].topics = @ \cup {f}]
+    /\ db' = [ex |-> TRUE, clean |-> sess[csess[c]].clean, topics |-> sess[csess[c]].topics \cup {f}]
+    /\ ev' = [a |-> "ksub", c |-> c, f |-> f]
+    /\ UNCHANGED <<pc, cl, cur, closed, smap, nsid, csess, watchQ, closeReq, admins>>
+
 NetDrop(c) ==
     /\ pc[c] = "ready"
     /\ KDrop(c)
@@ -181,8 +196,10 @@ TFix(c) ==
 (* deleteSession(cid): closes and unregisters whatever is registered *)
 WatchDelete ==
     /\ watchQ > 0 /\ watchQ' = watchQ - 1
-    /\ closed' = IF cur # "none" THEN [closed EXCEPT ![cur] = TRUE] ELSE closed
-    /\ cur' = "none"
+    /\ IF StaleGuard /\ db.ex
+       THEN UNCHANGED <<closed, cur>>
+       ELSE /\ closed' = IF cur # "none" THEN [closed EXCEPT ![cur] = TRUE] ELSE closed
+            /\ cur' = "none"
     /\ ev' = [a |-> "watch"]
     /\ UNCHANGED <<kvars, pc, cl, smap, sess, nsid, csess, db, trie, closeReq, admins>>
 
@@ -195,7 +212,7 @@ AdminDelete ==
     /\ UNCHANGED <<pc, cl, cur, closed, smap, sess, nsid, csess, trie, closeReq>>
 
 SNext == \/ \E c \in ConnSet : \/ \E clean \in BOOLEAN : ConnectLocked(c, clean)
-                               \/ CloseAsync(c) \/ Resub(c) \/ \E f \in FiltersS : Subscribe(c, f)
+                               \/ CloseAsync(c) \/ Resub(c) \/ \E f \in FiltersS : Subscribe(c, f) \/ KickedSubscribe(c, f)
                                \/ NetDrop(c) \/ T1(c) \/ T2(c) \/ T3(c) \/ T4(c) \/ TFix(c)
          \/ WatchDelete \/ AdminDelete
 SSpec == SInit /\ [][SNext]_svars
